@@ -82,6 +82,8 @@ def parseTimingCase : Sx → Option TimingCase
     parseTimingCase (.list [.atom "listen-timing", idle, stop, initial, max, conns])
   | .list [.atom "listen-timing", idle, stop, initial, max, conns, .list [.atom "twin"]] =>
     parseTimingCase (.list [.atom "listen-timing", idle, stop, initial, max, conns])
+  | .list [.atom "listen-timing", idle, stop, initial, max, conns, .list [.atom "signal", _]] =>
+    parseTimingCase (.list [.atom "listen-timing", idle, stop, initial, max, conns])
   | .list [.atom "listen-timing", idle, stop, initial, max, .list (.atom "conns" :: cs)] => do
     let idle ← asNat idle
     let stopAt := asNat stop
@@ -220,7 +222,16 @@ def boundPred (c : BoundCase) (obs : Sx) : Verdict :=
       if over then some "more-connections-in-service-than-the-worker-limit"
       else
         let pred := boundPrediction c
-        let late := (served.zip pred).any fun (k, p) => k.1 > p + boundTolerance
+        -- the harness measured how slow the machine is right now (a trivial round trip); a verdict "late" needs
+        -- more than that, and it needs a cause: the first reply coincides with the end or the arrival of another
+        -- connection (what a stranded connection waits for)
+        let slack : Nat := (items.findSome? fun k => match k with
+          | .list [.atom "slack", n] => asNat n
+          | _ => none).getD 0
+        let events : List Nat := served.flatMap fun j => [j.1, j.2]
+        let late := (served.zip pred).any fun (k, p) =>
+          k.1 > p + boundTolerance + slack &&
+            events.any fun e => e > p + boundTolerance / 2 && e != k.1 && e ≤ k.1 && k.1 ≤ e + 200
         let early := (served.zip pred).any fun (k, p) => k.1 + boundTolerance < p
         if late then some "accepted-connection-served-later-than-the-worker-limit-explains"
         else if early then some "model-disagrees:connection-served-earlier-than-predicted"
